@@ -176,6 +176,7 @@ func checkC09(w *World, r *Report) {
 	c09Extraction(w, r, tp)
 	c09Upstream(w, r)
 	c09DefaultsNoSharing(w, r)
+	c09NoNilEntry(w, r)
 }
 
 func c09ReadList(w *World, r *Report, tp *tpAnchors) {
@@ -854,5 +855,44 @@ func c09DefaultsNoSharing(w *World, r *Report) {
 	r.Ob(ri, w.FnName(fn)+"|defaults-built-per-load", fn.Pos(), fresh, "the defaults are a copy of the package-level variable "+gname+": the maps / slices / pointers inside it are shared by every configuration loaded in this process, and the loader decodes into them")
 	if n == 0 {
 		r.Undecided(ri, "no reference-typed default value found in defaultConfig (anchor lost?)")
+	}
+}
+
+// c09NoNilEntry (C09.8): the address of a peer that cannot be parsed is the nil IP, and the nil IP
+// equals the nil IP. An entry of trusted_proxies that does not parse must therefore never enter the
+// set as a nil address: it would make every peer with an unparsable address (a zoned link-local
+// one) a trusted proxy. Decided where the set is filled: the result of net.ParseIP is added only
+// through the edge on which it was found non-nil.
+func c09NoNilEntry(w *World, r *Report) {
+	ri := r.Rule("C09.8", 1, "an entry of trusted_proxies that is not an IP address is not added to the trusted set (a nil address would equal the nil address of a peer whose address cannot be parsed)")
+	n := 0
+	for _, fn := range w.Funcs {
+		if w.isMockFn(fn) || fn.Blocks == nil || !strings.HasSuffix(fnPkgPath(fn), "/middleware/http/trustedproxy") {
+			continue
+		}
+		for _, pc := range findCalls(fn, named("net.ParseIP")) {
+			var pv ssa.Value = pc
+			// the uses that put the parsed address into a collection: an append whose elements depend on it
+			for _, c := range callsIn(fn) {
+				cc, ok := c.(*ssa.Call)
+				if !ok {
+					continue
+				}
+				b, isB := cc.Call.Value.(*ssa.Builtin)
+				if !isB || b.Name() != "append" || len(cc.Call.Args) != 2 {
+					continue
+				}
+				if !dependsOn(w, cc.Call.Args[1], func(x ssa.Value) bool { return x == pv }) {
+					continue
+				}
+				n++
+				r.Analysed(w.FnName(fn))
+				ok2 := onlyVia(fn, cc.Block(), func(f Fact) bool { return f.Kind == FNonNil && (f.V == pv || sameValue(f.V, pv)) })
+				r.Ob(ri, fmt.Sprintf("%s|parsed-entry-non-nil#%d", w.FnName(fn), n), cc.Pos(), ok2, "the result of net.ParseIP is added to the trusted set without a test that it is non-nil: an entry that is not an IP address (a host name, a blank) makes every peer whose address cannot be parsed a trusted proxy")
+			}
+		}
+	}
+	if n == 0 {
+		r.Undecided(ri, "no single-address entry is added to the trusted proxy set")
 	}
 }
